@@ -131,6 +131,11 @@ pub fn code_of(c: u8) -> ErrorCode {
     CODES[c as usize % CODES.len()]
 }
 
+/// `Tin::op` value: the handler returns `Err((code_of(c), pad))`, i.e. an error whose message is caller-chosen text.
+pub const OP_ERR_PAD: u8 = 6;
+/// erased handler op: returns `Err(RepeError::ServerError { code_of(c), message: <payload as text> })`.
+pub const ERASED_OP_ERR_PAYLOAD: u8 = 5;
+
 #[derive(Serialize, Deserialize, Clone, Debug, PartialEq, Default)]
 pub struct Tin {
     pub t: u64,
@@ -165,6 +170,9 @@ fn json_logic(sid: u8, t: T, v: Value) -> Result<Value, (ErrorCode, String)> {
             ev(sid, EV_H, r.t, t as u8);
             if r.op == 1 {
                 Err((code_of(r.c), format!("handler error {}", r.t)))
+            } else if r.op == OP_ERR_PAD {
+                // the handler's own error message is the request's pad (reflected, possibly long and non-ASCII)
+                Err((code_of(r.c), r.pad))
             } else {
                 Ok(json!({"t": r.t, "r": t.path(), "pad": r.pad}))
             }
@@ -178,6 +186,9 @@ fn json_logic(sid: u8, t: T, v: Value) -> Result<Value, (ErrorCode, String)> {
 
 fn typed_logic(sid: u8, t: T, r: Tin) -> Result<TypedResponse<Tout>, (ErrorCode, String)> {
     ev(sid, EV_H, r.t, t as u8);
+    if r.op == OP_ERR_PAD {
+        return Err((code_of(r.c), r.pad));
+    }
     let out = Tout { t: r.t, r: t.path().to_string(), pad: r.pad };
     match r.op {
         1 => Err((code_of(r.c), format!("handler error {}", r.t))),
@@ -231,6 +242,9 @@ impl JsonTypedHandler for Jth {
         if r.op == 1 {
             return Err((code_of(r.c), format!("handler error {}", r.t)));
         }
+        if r.op == OP_ERR_PAD {
+            return Err((code_of(r.c), r.pad));
+        }
         Ok(Tout { t: r.t, r: T::Jth.path().to_string(), pad: r.pad })
     }
 }
@@ -265,7 +279,7 @@ pub fn erased_spec(req_qf: u16, req_bf: u16, body: &[u8]) -> Option<(u32, u16, u
     let payload = &body[10..];
     match op {
         1 => Some((0, 1, 0, Some(format!("/own/{tok}").into_bytes()), payload.iter().rev().copied().collect())),
-        2 => None,
+        2 | ERASED_OP_ERR_PAYLOAD => None,
         3 => Some((code_of(c) as u32, 0, 3, None, format!("handler says no {tok}").into_bytes())),
         4 => {
             let mut q = OWN_RAW_QUERY_PREFIX.to_vec();
@@ -285,6 +299,9 @@ impl Erased {
         let tok = if body.len() >= 8 { u64::from_le_bytes(body[..8].try_into().unwrap()) } else { 0 };
         ev(self.sid, EV_H, tok, T::Erased as u8);
         match erased_spec(qf, bf, body) {
+            None if body[8] == ERASED_OP_ERR_PAYLOAD => {
+                Err(RepeError::ServerError { code: code_of(body[9]), message: String::from_utf8_lossy(&body[10..]).into_owned() })
+            }
             None => Err(RepeError::ServerError { code: code_of(body[9]), message: format!("erased error {tok}") }),
             Some((ec, rqf, rbf, q, b)) => {
                 let mut m = Message::builder()
